@@ -1,5 +1,6 @@
 """C16 Field tables contain exactly the requested sample points."""
 import io
+import time
 import contextlib
 import itertools
 import collections
@@ -21,7 +22,8 @@ RULE = ('Generated: far-field grids (start, step, count 1..100; non-representabl
         '{counts} is enumerated for one axis.  Non-trivial = count*step not exactly representable or negative step.')
 BUDGET = {'quick': {'examples': 480, 'wall': 200}, 'thorough': {'examples': 20000, 'wall': 1500}}
 ASSUMPTIONS = ['order of near-field points (x fastest) is that of the repository\'s own golden near-field files']
-LABEL_FLOORS = {'near': 0.3, 'far': 0.04, 'neg-step': 0.1, 'inexact-step': 0.3}
+LABEL_FLOORS = {'near': 0.3, 'far': 0.3, 'neg-step': 0.1, 'inexact-step': 0.3}
+FLOOR_EXCLUDE_LABEL = 'enumerated-axis'   # floors are fractions of the generated part
 
 BASE = ['-f', '30', '--wire=4,0,0,-2.4,0,0,2.4,0.002', '--excitation-pulse=2']
 STEPS = [0.1, 0.05, 0.2, 0.3, 1 / 3., 0.7, 1.0, 2.5, 1e-3, 0.15, -0.1, -0.05, -1 / 3., -1.0, 0.6, 1.1]
@@ -174,9 +176,12 @@ def check(case):
     return Result(fails=fails, nontrivial=nt, labels=sorted(set(labels)))
 
 
-def _enum_chunk(items):
+def _enum_chunk(arg):
+    items, stop = arg
     out = []
     for start, step, n in items:
+        if time.time() > stop:
+            break
         case = {'kind': 'near', 'axes': [[start, step, n], [0.7, 0.0, 1], [0.2, 0.0, 1]]}
         res = check(case)
         out.append((case, res.fails, res.nontrivial, res.labels))
@@ -193,13 +198,15 @@ def enumerate_part(tier, seed, nproc, deadline):
     ctx = multiprocessing.get_context('spawn')
     lab = collections.Counter()
     with ctx.Pool(nproc) as pool:
-        for res in pool.imap_unordered(_enum_chunk, chunks):
+        # at most half of the remaining wall clock; what is left is for the generated search
+        stop = time.time() + max(5.0, 0.5 * (deadline - time.time()))
+        for res in pool.imap_unordered(_enum_chunk, [(c, stop) for c in chunks]):
             for case, fails, nt, labs in res:
                 st_['evaluations'] += 1
                 if nt:
                     st_['nt'].append(case_hash(case))
                 lab['enumerated-axis'] += 1
-                lab.update(labs)
+                lab.update('enum:' + l for l in labs)
                 for sig, detail in fails:
                     cur = st_['fails'].get(sig)
                     size = case['axes'][0][2]
@@ -208,5 +215,7 @@ def enumerate_part(tier, seed, nproc, deadline):
                     else:
                         cur['count'] += 1
     st_['labels'] = dict(lab)
-    return st_, {'enumerated_one_axis_grids': len(items), 'enumerated_part_exhaustive_for_counts_1_to_100': tier == 'thorough',
+    done = st_['evaluations'] == len(items)
+    st_['truncated'] = not done
+    return st_, {'enumerated_one_axis_grids': st_['evaluations'], 'enumerated_part_exhaustive_for_counts_1_to_100': tier == 'thorough' and done,
                  'enumeration': '%d starts x %d steps x %d counts on the x axis' % (len(STARTS), len(STEPS), len(counts))}
